@@ -124,6 +124,12 @@ def partitions(tier):
     parts = []
     b = bounds(tier)
     import itertools
+    from harness import c01
+    # real fork pool: every worker checks its candidates in a file of its
+    # own (a shared file would let a worker read another worker's candidate
+    # and report a verdict for an input it did not produce)
+    parts.append({'name': 'candfiles', 'kind': 'native',
+                  'run': c01.run_tmpnames, 'budget_s': 120})
     for (st, sc, ms) in CONFIGS:
         for j in b['J']:
             npin = 0 if j == 1 else (2 if tier == 'quick' else 3)
@@ -185,6 +191,10 @@ def partitions(tier):
 
 def replay(part, cex, checker_fn=SC.check_chain):
     import os
+    if part == 'candfiles':
+        from harness import c01
+        r = c01.run_tmpnames()
+        return r['exc']['msg'] if r['exc'] else None
     st, sc, ms, j = part.split('_')[:4]
     oracle = 'req' if part.endswith('_req') else 'same' if part.endswith('_same') else 'shape' if part.endswith('_shape') else (
         part[part.rindex('_') + 1:] if '_hash' in part else 'first')
